@@ -4,6 +4,6 @@ CONSTANTS
   MaxRuleSeq = 3
   MaxLen = 9
   PoolCap = 6
-  Guard = TRUE
+  CapMode = "exact"
 INVARIANTS NoCrossCorruption PayloadIntact StillDecodable
 CHECK_DEADLOCK FALSE
